@@ -1,7 +1,7 @@
 (* Props/C07.v — property theorems only. *)
 From Coq Require Import List NArith ZArith Bool.
 From N0 Require Import Base.PyStr Base.PyVal Compare.Util Compare.Flags Compare.Match Compare.Model
-  Compare.Spec Compare.WalkLemmas Compare.VerdictProofs Compare.DefaultProofs Compare.ReflProofs.
+  Compare.Spec Compare.WalkLemmas Compare.VerdictProofs Compare.DefaultProofs Compare.ReflProofs Compare.SymProofs.
 Import ListNotations.
 
 (* direct_compare (the ordered walk): for every flag state, every pair of
@@ -95,3 +95,18 @@ Theorem C07_direct_reflexive :
   compare_top fl o MDirect ck a a = Ok [].
 Proof. exact direct_reflexive. Qed.
 Print Assumptions C07_direct_reflexive.
+
+(* Symmetry: structural equality does not depend on the order of its arguments,
+   and neither does the verdict of direct_compare - the reports of (a, b) and of
+   (b, a) are both empty or both non-empty, for every flag state. *)
+Theorem C07_structural_equality_symmetric :
+  forall a b, wf a -> wf b -> tree_eq a b = tree_eq b a.
+Proof. exact tree_eq_comm. Qed.
+Print Assumptions C07_structural_equality_symmetric.
+
+Theorem C07_direct_verdict_symmetric :
+  forall fl o ck a b, quiet o -> good a -> good b -> wf a -> wf b -> same_kind a b ->
+  exists r1 r2, compare_top fl o MDirect ck a b = Ok r1 /\ compare_top fl o MDirect ck b a = Ok r2 /\
+                (r1 = [] <-> r2 = []).
+Proof. exact direct_verdict_symmetric. Qed.
+Print Assumptions C07_direct_verdict_symmetric.
